@@ -52,6 +52,27 @@ pub enum Severity {
     Low,
 }
 
+/// A severity heading is a markdown heading line that names exactly one of the three severities
+/// (the tool prints `## High Risk` etc.; the wording around the word is decoration).
+pub fn severity_of_heading(line: &str) -> Option<Severity> {
+    if !line.starts_with('#') {
+        return None;
+    }
+    let words: Vec<String> = line
+        .split(|c: char| !c.is_ascii_alphabetic())
+        .map(|w| w.to_ascii_lowercase())
+        .collect();
+    let h = words.iter().any(|w| w == "high" || w == "critical");
+    let m = words.iter().any(|w| w == "medium");
+    let l = words.iter().any(|w| w == "low");
+    match (h, m, l) {
+        (true, false, false) => Some(Severity::High),
+        (false, true, false) => Some(Severity::Medium),
+        (false, false, true) => Some(Severity::Low),
+        _ => None,
+    }
+}
+
 impl Severity {
     pub fn heading(&self) -> &'static str {
         match self {
@@ -120,7 +141,7 @@ impl Tables {
                 Some(p) => {
                     let text = f();
                     for l in text.lines() {
-                        if SEVERITIES.iter().any(|s| s.heading() == l)
+                        if severity_of_heading(l).is_some()
                             || l.contains("(Total Optimizations ")
                             || l.contains("(Total Vulnerabilities ")
                         {
@@ -151,7 +172,11 @@ impl Tables {
                 t.problems.push(format!("section text of {:?} is empty", p));
             }
             for l in a.lines() {
-                if let Some(body) = l.strip_prefix("- ") {
+                if let Some(body) = l
+                    .strip_prefix("- ")
+                    .or_else(|| l.strip_prefix("* "))
+                    .or_else(|| l.strip_prefix("+ "))
+                {
                     if let Some(c) = body.rfind(':') {
                         if body[c + 1..].parse::<i64>().is_ok() {
                             t.problems.push(format!(
@@ -257,10 +282,15 @@ pub fn parse(report: &str, t: &Tables) -> Parsed {
     };
     let mut off = 0;
     for l in report.split('\n') {
-        if let Some(s) = SEVERITIES.iter().find(|s| s.heading() == l) {
-            p.severity_lines.push((off, *s));
+        if let Some(s) = severity_of_heading(l) {
+            // (lines inside a pattern's explanatory text never qualify: checked when the tables are built)
+            p.severity_lines.push((off, s));
         }
-        if let Some(body) = l.strip_prefix("- ") {
+        if let Some(body) = l
+            .strip_prefix("- ")
+            .or_else(|| l.strip_prefix("* "))
+            .or_else(|| l.strip_prefix("+ "))
+        {
             // which section does this line belong to?
             let idx = match occ.binary_search_by(|(o, _)| o.cmp(&off)) {
                 Ok(i) => Some(i),
